@@ -806,6 +806,7 @@ FEATURE_SETS = [("none", ""), ("default", "par,log,serde"), ("default+decode", "
 def check_c20(prop, tier, seed):
     import shutil, subprocess
     res = Result()
+    res.level = "other"
     h20 = os.path.join(vlib.VERIF, "harness20")
     out = os.path.join(vlib.WORK, f"{prop}-{tier}")
     shutil.rmtree(out, ignore_errors=True)
@@ -842,6 +843,8 @@ def check_c20(prop, tier, seed):
     res.failures = res.failures[:10]
     res.coverage = dict(states=states, transitions=trans, traces_validated_against_impl=ok, evaluations=len(lines), distinct_nontrivial=cases,
                         builds=[n for n, _ in FEATURE_SETS], cases_per_build=cases,
+                        explanation="differential run: the same fixed corpus through four builds of the library (feature sets none / default / "
+                                    "default+decode / default+decode+experimental); TraceFeat.tla demands one digest per case",
                         rule="a fixed corpus (channels 1/2/3/6, all five widths, block sizes 32..576, six signal kinds, non-experimental configurations over "
                              "every section) is encoded by four builds of the library: no features, default, default+decode, default+decode+experimental; "
                              "TraceFeat.tla fixes out[case] by the first build and rejects any other digest. distinct = corpus cases",
